@@ -73,6 +73,50 @@ theorem decor_invariant (style : Style) (d : Decor) (hd : d.ok) (f : Forest) (ha
 theorem decor_invariant_holds : decor_invariant_statement :=
   fun style d f hd ha => decor_invariant style d hd f ha
 
+/-! ### reading again through one parser object (`mpt::parser::read`) -/
+
+/-- format family and configuration `mpt::config_parser` uses for a style (name flags all set) -/
+def styleCfg : Style → Kind × Cfg
+  | .brace => (.pre, cfgB)
+  | .sep => (.sep, cfgS)
+  | .bar => (.enc, cfgBar)
+  | .enc => (.enc, cfgE)
+
+/-- **Every read from the start of a text delivers the forest**: `parser::read` on the text of an
+    admissible forest (any style, any valid decoration) succeeds and leaves exactly the normal form in
+    the target — whatever the previous run left in the parser context (`curr`) and whatever the target
+    held before.  (open/read, reset/read, … on one parser object.) -/
+theorem roundtrip_reread (style : Style) (d : Decor) (hd : d.ok) (f : Forest) (ha : admissible style f = true)
+    (curr : Nat) (target : Forest) :
+    (parserRead (styleCfg style).1 (styleCfg style).2 curr target (render style d f)).1.code = 0
+    ∧ (parserRead (styleCfg style).1 (styleCfg style).2 curr target (render style d f)).2 = norm f := by
+  unfold admissible at ha
+  simp only [Bool.and_eq_true] at ha
+  obtain ⟨hok, hshape⟩ := ha
+  have hclean : Clean [] ({ curr := curr } : St).path := ⟨rfl, rfl, rfl⟩
+  unfold parserRead
+  cases style with
+  | brace =>
+    obtain ⟨hc, hf⟩ := loop_brace d hd f hok { curr := curr } hclean rfl
+    simp only [styleCfg, render, hc, hf]
+    simp
+  | sep =>
+    obtain ⟨hc, hf⟩ := flat_claim sectStyle_Sep d hd f 0 ({} : Build) Flag.section_ { curr := curr }
+      { rest := renderFlat d [91] [93] 0 f } [] true hshape hok ⟨hclean, rfl, rfl, by simp⟩
+      (by simp [Mode, Flag.section_, Flag.sectEnd]) (Or.inl rfl)
+    simp only [styleCfg, render, hc, hf]
+    simp
+  | bar =>
+    obtain ⟨hc, hf⟩ := flat_claim sectStyle_Bar d hd f 0 ({} : Build) Flag.section_ { curr := curr }
+      { rest := renderFlat d [124] [] 0 f } [] true hshape hok ⟨hclean, rfl, rfl, by simp⟩
+      (by simp [Mode, Flag.section_, Flag.sectEnd]) (Or.inl rfl)
+    simp only [styleCfg, render, hc, hf]
+    simp
+  | enc =>
+    obtain ⟨hc, hf⟩ := loop_enc d hd f hshape hok { curr := curr } hclean rfl
+    simp only [styleCfg, render, hc, hf]
+    simp
+
 /-! ### format descriptions that name their escape characters -/
 
 /-- a description `{*} = # q` with ONE escape character `q` makes `q` the only quote character: the
